@@ -34,8 +34,15 @@ def model_steps(cands, schedule):
         steps.append(f"d{idx[c]}")
     done = set()
     main = False
-    for s in schedule:
-        if s in ("main", "premain"):
+    for n, s in enumerate(schedule):
+        if s == "cancel":
+            # the caller's context is cancelled; ProbeAndDial returns at once unless the caller is parked (then its select has
+            # several ready cases and picks any: no prediction)
+            if any(t in ("main", "premain") for t in schedule[n + 1:]) or main:
+                return len(uniq), None, idx
+            steps += ["K", "b"]
+            main = True
+        elif s in ("main", "premain"):
             steps.append("m")
             main = True
         else:
@@ -84,6 +91,15 @@ def run(ctx):
     for extra in (["X"], ["A'"], ["T"], ["X", "A'", "T"]):
         for sched in (["A", "main", "B"], ["B", "main", "A"], ["A", "B", "main"]):
             specs.append({"cands": ["A", "B"] + extra, "schedule": sched, "mode": "observe"})
+    # the caller gives up while dials hold a connection but have not claimed the race yet / have just claimed it
+    for cs in (["A"], ["A", "B"], ["A", "B", "C"], ["A", "X", "B"]):
+        live = [c for c in cs if c != "X"]
+        specs.append({"cands": cs, "schedule": ["cancel"] + live, "mode": "observe"})
+        specs.append({"cands": cs, "schedule": ["cancel"] + live[::-1], "mode": "observe"})
+        for _ in range(3 if not thorough else 8):
+            specs.append({"cands": cs, "schedule": [live[0], "cancel", "premain"] + live[1:], "mode": "observe"})
+        if len(live) > 1:
+            specs.append({"cands": cs, "schedule": [live[1], "cancel", "premain", live[0]], "mode": "observe"})
     # the listener completes the loser first (the winner's path is delayed towards the listener)
     for d in ([60, 150] if not thorough else [30, 60, 150, 300]):
         specs.append({"cands": ["R", "B"], "schedule": ["R", "main", "B"], "relay_delay_ms": d, "mode": "observe"})
@@ -127,10 +143,11 @@ def run(ctx):
     for (i, idx), m in zip(mix, mod):
         inv = {v: k for k, v in idx.items()}
         f = dict(x.split("=") for x in m.split() if "=" in x)
-        pred[i] = {"returned": inv.get(int(f["returned"])) if f.get("returned", "-") != "-" else None, "won": int(f.get("won", -1)),
+        pred[i] = {"returned": inv.get(int(f["returned"])) if f.get("returned", "-").isdigit() else None, "won": int(f.get("won", -1)),
                    "open": [inv[int(x)] for x in f.get("open", "[]")[1:-1].split(",") if x], "raw": m}
     diffs = []
     ok_runs = 0
+    cancelled_runs = 0
     for i, (s, r) in enumerate(zip(specs, res)):
         if r is None:
             continue
@@ -150,6 +167,18 @@ def run(ctx):
         if not reachable:
             if "dial_err" not in o:
                 ctx.violation("C09:returned-without-candidate", "a connection was returned although no candidate is reachable", rep)
+            ok_runs += 1
+            continue
+        if "cancel" in s["schedule"] and "dial_err" in o:
+            # the caller gave up: the dialing side has no connection, so nothing may stay open at the listener and nothing is "won"
+            # unless the winner was closed again by the caller (then its close has arrived)
+            if o.get("server_open"):
+                ctx.violation("C09:abandoned-connection-left-open", f"ProbeAndDial returned '{o['dial_err']}' to a caller that cancelled, but {len(o['server_open'])} connection(s) "
+                              f"of its dials are still open at the listener a grace period later (candidates {s['cands']}, schedule {s['schedule']}, updates {o.get('updates')})", rep)
+            p = pred.get(i)
+            if p and (p["returned"] is not None or p["won"] != o.get("won_updates") or len(p["open"]) != len(o.get("server_open") or [])):
+                diffs.append((s, o, p))
+            cancelled_runs += 1
             ok_runs += 1
             continue
         if "dial_err" in o:
@@ -188,9 +217,10 @@ def run(ctx):
     ctx.oblige("correspondence:probe-and-dial-schedules", not diffs,
                "; ".join(f"cands {d[0]['cands']} schedule {d[0]['schedule']}: impl returned={d[1].get('returned')} won={d[1].get('won_updates')} open={d[1].get('server_open')} model {d[2]['raw']}" for d in diffs[:3])[:900])
     ctx.coverage.update({
-        "evaluations": len(specs), "distinct_nontrivial": ok_runs, "controlled_schedules": n_sched, "model_predictions_compared": len(pred),
+        "evaluations": len(specs), "distinct_nontrivial": ok_runs, "controlled_schedules": n_sched, "model_predictions_compared": len(pred), "caller_cancelled_runs": cancelled_runs,
         "disagreements_model_vs_impl": len(diffs),
         "rule": "controlled: every order of the claims of 2 and 3 (thorough: 4) reachable candidates and the caller's receive (receive after at least one claim), every order of 1-3 claims with the caller reaching its select only after all dials finished (repeated: select then has two ready cases), the same with an unreachable port / a duplicate spelling / a turn:-prefixed address added, "
+                "the caller cancelling while 1-3 dials are parked between their handshake and their claim (and with one of them having claimed, the caller parked before its select), "
                 "and the winner's path behind a relay that delays its packets towards the listener by 30-300 ms so that the listener completes the loser first (observer and real receiver selection). "
                 "natural timing: 2-4 reachable loopback addresses of one listener (+ optional unreachable/duplicate/turn candidate) in random order, observer mode and real selection with 0-3 extra connections and 0-3 strangers (silent, or authenticating with a wrong code) connected to the listener first. "
                 "oracle: one 'won', the caller's connection is the only one open at the listener after 400 ms, both peers authenticate on the same connection within 3 s, all extra connections kept, nothing else authenticates",
